@@ -204,6 +204,7 @@ class ThermalSum:
                 self.consts[st.target.id] = pyrx.const_value(st.value)
         self.fn = {f.name: f for f in self.cls.body if isinstance(f, ast.FunctionDef)}
         self.fresh = 0
+        self.used_consts = set()
 
     def new(self, base):
         self.fresh += 1
@@ -224,7 +225,8 @@ class ThermalSum:
                 return Val("R", "PI")
             if isinstance(node.value, ast.Name) and node.value.id == "self":
                 if node.attr in self.consts:
-                    return Val("R", pyrx.rlit(self.consts[node.attr]))
+                    self.used_consts.add(node.attr)
+                    return Val("R", node.attr)
                 if node.attr == "imaginaryOption":
                     return Val("E", "opt")
             if isinstance(node.value, ast.Name) and node.value.id == "EImaginaryOption" and \
@@ -433,7 +435,9 @@ class ThermalSum:
                "Definition EImaginaryOption_eq_dec (a b : EImaginaryOption) : {a = b} + "
                "{a <> b}.\nProof. decide equality. Defined.",
                "(* external collaborators: self.integrals.Jb / Jf, returning (real, imaginary) *)",
-               "Record env := mk_env { Jb : R -> R * R; Jf : R -> R * R }.",
+               "Record env := mk_env { Jb : R -> R * R; Jf : R -> R * R }."] + [
+               "Definition %s : R := %s." % (c, pyrx.rlit(self.consts[c]))
+               for c in sorted(self.used_consts)] + [
                "Definition potentialOneLoopThermal (e : env) (opt : EImaginaryOption)\n"
                "  (massSqB nB massSqF nF : list R) (temperature : R) : option R :=\n  %s." % body]
         span = {"potentialOneLoopThermal": (fn.lineno, fn.end_lineno,
